@@ -683,15 +683,17 @@ Fixpoint convert (t : dtype) (v : pyval) : res pyval :=
     match t with
     | TArray e _ =>
         match v with
+        | PNone => Ok PNone                            (* ... if row is not None else None *)
         | PList l | PTuple l | PRow _ l => bind (mapM (convert e) l) (fun l' => Ok (PList l'))
         | PDict _ | PStr _ | PBytes _ | PBytearray _ => Err EUnmodelled
-        | _ => Err EType                               (* [conv(v) for v in None]: not iterable *)
+        | _ => Err EType                               (* [conv(v) for v in 5]: not iterable *)
         end
     | TMap k x _ =>
         match v with
         | PDict kv =>
             bind (mapM (fun p => bind (convert k (fst p)) (fun k' => bind (convert x (snd p)) (fun x' => Ok (k', x')))) kv)
                  (fun kv' => Ok (PDict kv'))
+        | PNone => Ok PNone                            (* ... if row is not None else None *)
         | _ => Err EAttribute                          (* row.items() *)
         end
     | TStruct fs =>
